@@ -105,21 +105,38 @@ def lookalike_cases(draw):
     """A class that drops defaults when dumped; attribute values that are not
     the default but resemble it (same truthiness, same spelling, other type)."""
     rows = draw(st.lists(st.sampled_from(LOOKALIKE), min_size=1, max_size=3))
+    if draw(st.integers(0, 2)) == 0:
+        # several parameters of one type with different defaults
+        t0 = rows[0][0]
+        same = [r for r in LOOKALIKE if r[0] == t0]
+        rows = draw(st.lists(st.sampled_from(same), min_size=2, max_size=3))
     params = [{'name': 'req', 'type': 'int'}]
     kw = [['req', ['int', 1]]]
+    extra_first = draw(st.booleans())
     for i, (t, d, vals) in enumerate(rows):
         params.append({'name': 'p%d' % i, 'type': t, 'default': d})
-        kw.append(['p%d' % i, draw(st.sampled_from(vals + vals + [d]))])
+        # also the default of a neighbouring parameter, where the type admits it
+        others = [r[1] for j, r in enumerate(rows) if j != i and r[0] == t and r[1] != d]
+        kw.append(['p%d' % i, draw(st.sampled_from(vals + vals + [d] + others * 3))])
     cls = {'name': 'D', 'kind': 'obj', 'bases': [], 'params': params,
            'sweeten': [['remove_defaults']]}
+    if extra_first:
+        # _yatiml_extra with a default, in the signature before the other defaults
+        cls['extra'] = 'default_first'
     classes = [dict(c) for c in LOOK_CLASSES] + [cls]
     doc = ['ref', 'D']
-    v = ['obj', 'D', kw, None]
+    ex = [] if extra_first else None
+    if extra_first and draw(st.booleans()):
+        ex = [['note', ['str', 'n']]]
+    v = ['obj', 'D', kw, ex]
     if draw(st.booleans()):
         # dumped through a subclass: the base class's hook sees the subclass
-        classes.append({'name': 'E', 'kind': 'obj', 'bases': ['D'], 'params':
-                        [params[0], {'name': 'e_only', 'type': 'str'}] + params[1:]})
-        v = ['obj', 'E', [kw[0], ['e_only', ['str', 'x']]] + kw[1:], None]
+        sub = {'name': 'E', 'kind': 'obj', 'bases': ['D'], 'params':
+               [params[0], {'name': 'e_only', 'type': 'str'}] + params[1:]}
+        if extra_first:
+            sub['extra'] = 'default_first'
+        classes.append(sub)
+        v = ['obj', 'E', [kw[0], ['e_only', ['str', 'x']]] + kw[1:], ex]
     spec = {'classes': classes, 'doc_type': doc, 'order': [c['name'] for c in classes]}
     if draw(st.booleans()):
         spec['doc_type'] = ['list', doc]
